@@ -99,3 +99,15 @@ Theorem every_replay_shows_the_last_N_events_so_far : forall size ops,
   brun size [] ops = bspec size [] ops.
 Proof. exact brun_spec0. Qed.
 Print Assumptions every_replay_shows_the_last_N_events_so_far.
+
+(** the publisher over a HISTORY of addObserver / removeObserver / events: whatever happened before — earlier failures of
+    the same observer included — an event and the failure reports it causes go to exactly what `publish` says for the
+    observers registered AT THAT TIME (with the theorems above: every one of them gets the event once in order, and the
+    report about a failing X reaches every registered observer other than X, never X) *)
+Theorem event_and_failure_reports_depend_only_on_the_observers_registered_at_that_time : forall tab os pre n post,
+  prun tab os (pre ++ PEv n :: post)
+  = prun tab os pre
+    ++ publish (S (length (pregs os pre))) (to_obs tab (pregs os pre)) (Ev n)
+    ++ prun tab (pregs os pre) post.
+Proof. exact prun_event. Qed.
+Print Assumptions event_and_failure_reports_depend_only_on_the_observers_registered_at_that_time.
